@@ -85,7 +85,7 @@ impl PartialPermission {
 impl Parseable for Permission {
     fn parse(input: &mut &str) -> PResult<Permission> {
         alt((
-            take_while(3.., |c| "01234567".contains(c))
+            take_while(3..=4, |c| "01234567".contains(c))
                 .map(|oct| u32::from_str_radix(oct, 8).unwrap())
                 .map(|bits| Permission(Mode::from_bits(bits).unwrap())),
             separated(1.., PartialPermission::parse, ",")
